@@ -115,7 +115,62 @@
 #include <fcppt/range/from_pair.hpp>
 #include <fcppt/range/singular.hpp>
 #include <fcppt/range/size.hpp>
+#include <fcppt/error_code_to_string.hpp>
+#include <fcppt/exception.hpp>
+#include <fcppt/format.hpp>
+#include <fcppt/getenv.hpp>
+#include <fcppt/make_optional_error_code.hpp>
+#include <fcppt/optional_error_code.hpp>
+#include <fcppt/scoped_state_machine.hpp>
+#include <fcppt/string.hpp>
+#include <fcppt/text.hpp>
+#include <fcppt/type_name.hpp>
+#include <fcppt/type_name_from_index.hpp>
+#include <fcppt/type_name_from_info.hpp>
+#include <fcppt/version.hpp>
+#include <fcppt/version_string.hpp>
+#include <fcppt/array/object.hpp>
+#include <fcppt/error/strerrno.hpp>
+#include <fcppt/error/strerror.hpp>
+#include <fcppt/mpl/arg.hpp>
+#include <fcppt/mpl/bind.hpp>
+#include <fcppt/mpl/lambda.hpp>
+#include <fcppt/mpl/list/object.hpp>
+#include <fcppt/record/disjoint_product.hpp>
+#include <fcppt/record/element.hpp>
+#include <fcppt/record/element_to_type.hpp>
+#include <fcppt/record/from_list.hpp>
+#include <fcppt/record/get.hpp>
+#include <fcppt/record/label_name.hpp>
+#include <fcppt/record/label_value_type.hpp>
+#include <fcppt/record/make_label.hpp>
+#include <fcppt/record/map_elements.hpp>
+#include <fcppt/record/object.hpp>
+#include <fcppt/signal/auto_connection.hpp>
+#include <fcppt/signal/auto_connection_container.hpp>
+#include <fcppt/signal/object.hpp>
+#include <fcppt/time/gmtime.hpp>
+#include <fcppt/time/localtime.hpp>
+#include <fcppt/time/output_tm.hpp>
+#include <fcppt/time/std_time.hpp>
+#include <fcppt/tuple/apply.hpp>
+#include <fcppt/tuple/element.hpp>
+#include <fcppt/tuple/from_array.hpp>
+#include <fcppt/tuple/get.hpp>
+#include <fcppt/tuple/make.hpp>
+#include <fcppt/tuple/object.hpp>
+#include <fcppt/variant/current_type_name.hpp>
+#include <fcppt/variant/has_type.hpp>
+#include <fcppt/variant/type_info.hpp>
 
+#include <boost/statechart/simple_state.hpp>
+#include <boost/statechart/state_machine.hpp>
+#include <cerrno>
+#include <ctime>
+#include <cxxabi.h>
+#include <future>
+#include <system_error>
+#include <typeindex>
 #include <array>
 #include <deque>
 #include <list>
@@ -949,4 +1004,371 @@ Reg const r_ranges{"range_helpers", Kind::exhaustive, "the container or the sub-
                    [] { for (i64 k = 0; k < 5; ++k) for (i64 n = 0; n < 5; ++n) for (i64 i = 0; i <= n; ++i) for (i64 j = i; j <= n; ++j) { cur4(k, n, i, j); ranges_one(static_cast<std::size_t>(k), static_cast<std::size_t>(n), static_cast<std::size_t>(i), static_cast<std::size_t>(j)); } },
                    [](Ints const &c) { ranges_one(static_cast<std::size_t>(c.at(0)), static_cast<std::size_t>(c.at(1)), static_cast<std::size_t>(c.at(2)), static_cast<std::size_t>(c.at(3))); },
                    [](Ints const &c) { static char const *const kn[] = {"vector", "list", "set", "string", "multimap"}; return std::string("range::empty/singular/begin/end/size/from_pair and range comparison on a ") + kn[static_cast<u64>(c.at(0)) % 5] + " of size " + std::to_string(static_cast<u64>(c.at(1)) % 5) + ", sub-range indices " + std::to_string(c.at(2)) + ".." + std::to_string(c.at(3)); }};
+
+// ---------------------------------------------------------------------------- record / tuple / variant helpers
+FCPPT_RECORD_MAKE_LABEL(int_label);
+FCPPT_RECORD_MAKE_LABEL(str_label);
+FCPPT_RECORD_MAKE_LABEL(flag_label);
+using rec_l = fcppt::record::object<fcppt::record::element<int_label, int>, fcppt::record::element<str_label, std::string>>;
+using rec_r = fcppt::record::object<fcppt::record::element<flag_label, bool>>;
+using rec_prod = fcppt::record::disjoint_product<rec_l, rec_r>;
+using rec_opt = fcppt::record::map_elements<rec_l, fcppt::mpl::bind<fcppt::mpl::lambda<fcppt::optional::object>, fcppt::mpl::bind<fcppt::mpl::lambda<fcppt::record::element_to_type>, fcppt::mpl::arg<1>>>>;
+static_assert(std::is_same_v<fcppt::record::label_value_type<rec_prod, flag_label>, bool> && std::is_same_v<fcppt::record::label_value_type<rec_prod, str_label>, std::string>);
+static_assert(std::is_same_v<fcppt::record::label_value_type<rec_opt, int_label>, fcppt::optional::object<int>>);
+static_assert(std::is_same_v<fcppt::record::from_list<fcppt::mpl::list::object<fcppt::record::element<flag_label, bool>>>, rec_r>);
+using var3 = fcppt::variant::object<int, std::string, bool>;
+static_assert(std::is_same_v<fcppt::variant::from_list<fcppt::mpl::list::object<int, std::string, bool>>, var3>);
+static_assert(fcppt::variant::has_type<var3, bool>::value && !fcppt::variant::has_type<var3, char>::value);
+static_assert(std::is_same_v<fcppt::tuple::element<1, fcppt::tuple::object<int, std::string, bool>>, std::string>);
+
+void rtv_one(int k, std::size_t len, std::size_t alt)
+{
+  alt %= 3;
+  len %= 4;
+  count(len == 0 || alt == 2);
+  std::string const str(len, 's');
+  total("record::*", [&] {
+    rec_prod const p{int_label{} = k, str_label{} = std::string(str), flag_label{} = (k % 2 == 0)};
+    if (fcppt::record::get<int_label>(p) != k || fcppt::record::get<str_label>(p) != str || fcppt::record::get<flag_label>(p) != (k % 2 == 0)) fail("record::disjoint_product|value", "an element of the product record has the wrong value");
+    rec_opt const o{int_label{} = fcppt::optional::object<int>{k}, str_label{} = fcppt::optional::object<std::string>{}};
+    if (!fcppt::record::get<int_label>(o).has_value() || fcppt::record::get<str_label>(o).has_value()) fail("record::map_elements|value", "mapped record elements wrong");
+    std::string const n1 = fcppt::record::label_name<int_label>(), n2 = fcppt::record::label_name<str_label>();
+    if (n1.empty() || n1 == n2 || n1.find("int_label") == std::string::npos) fail("record::label_name|value", "label_name<int_label>() = " + n1);
+  });
+  total("tuple::*", [&] {
+    // (tuple::apply does not compile with lvalue tuples - apply_result takes tuple::size of a reference type;
+    // compile-time-only defect - so the tuples are passed as rvalues)
+    using t3 = fcppt::tuple::object<int, std::string, bool>;
+    auto const sum = fcppt::tuple::apply(fcppt::overload([](int a, int b) { return a + b; }, [](std::string const &a, std::string const &b) { return a + b; }, [](bool a, bool b) { return a != b; }), t3{k, std::string(str), true}, t3{1, std::string("!"), false});
+    if (fcppt::tuple::get<0>(sum) != k + 1 || fcppt::tuple::get<1>(sum) != str + "!" || !fcppt::tuple::get<2>(sum)) fail("tuple::apply|value", "element-wise application wrong");
+    // (with one tuple - or three - tuple::apply does not compile either: std::is_same_v<Sizes...> needs exactly two; compile-time-only)
+    auto const taken = fcppt::tuple::apply([](std::string const &a, int b) { return a + std::to_string(b); }, fcppt::tuple::make(std::string(str)), fcppt::tuple::make(k));
+    if (fcppt::tuple::get<0>(taken) != str + std::to_string(k)) fail("tuple::apply|rvalue", "rvalue element lost");
+    auto const none = fcppt::tuple::apply([] { return 1; }, fcppt::tuple::object<>{}, fcppt::tuple::object<>{});
+    touch(none);
+    fcppt::array::object<int, 3> const arr{k, k + 1, k + 2};
+    auto const ft = fcppt::tuple::from_array(arr);
+    if (fcppt::tuple::get<0>(ft) != k || fcppt::tuple::get<1>(ft) != k + 1 || fcppt::tuple::get<2>(ft) != k + 2) fail("tuple::from_array|value", "elements differ");
+    auto const fs = fcppt::tuple::from_array(fcppt::array::object<std::string, 2>{std::string(str), std::string("z")});
+    if (fcppt::tuple::get<0>(fs) != str || fcppt::tuple::get<1>(fs) != "z") fail("tuple::from_array|rvalue", "elements differ");
+    auto const f0 = fcppt::tuple::from_array(fcppt::array::object<int, 0>{});
+    touch(f0);
+  });
+  total("variant::*", [&] {
+    var3 const v = alt == 0 ? var3{k} : (alt == 1 ? var3{std::string(str)} : var3{k % 2 == 0});
+    std::type_info const &ti = fcppt::variant::type_info(v);
+    std::type_info const &want = alt == 0 ? typeid(int) : (alt == 1 ? typeid(std::string) : typeid(bool));
+    if (ti != want) fail("variant::type_info|value", std::string("type_info names ") + ti.name());
+    std::string const name = fcppt::variant::current_type_name(v);
+    char const *const needle = alt == 0 ? "int" : (alt == 1 ? "basic_string" : "bool");
+    if (name.find(needle) == std::string::npos) fail("variant::current_type_name|value", "current_type_name = " + name);
+  });
+}
+Reg const r_rtv{"record_tuple_variant_helpers", Kind::exhaustive, "the string element is empty or the variant holds its last alternative",
+                [] { for (i64 k = -2; k <= 2; ++k) for (i64 l = 0; l < 4; ++l) for (i64 a = 0; a < 3; ++a) { cur3(k, l, a); rtv_one(static_cast<int>(k), static_cast<std::size_t>(l), static_cast<std::size_t>(a)); } },
+                [](Ints const &c) { rtv_one(static_cast<int>(c.at(0) % 1000), static_cast<std::size_t>(c.at(1)), static_cast<std::size_t>(c.at(2))); },
+                [](Ints const &c) { return "record disjoint_product/map_elements/label_name, tuple apply/from_array, variant type_info/current_type_name with int " + std::to_string(c.at(0) % 1000) + ", string length " + std::to_string(static_cast<u64>(c.at(1)) % 4) + ", alternative " + std::to_string(static_cast<u64>(c.at(2)) % 3); }};
+
+// ---------------------------------------------------------------------------- type_name, getenv
+char const mangle_alphabet[] = {'_', 'Z', 'N', 'S', 't', 'E', 'i', 'v', 'P', 'K', '1', '3', '9', '0', 'a', 'I', 'T', '_', 'L', 'x', ' ', '\xff', '=', 'V', 'C'};
+std::string decode_name(Ints const &c, std::size_t from, std::size_t maxlen)
+{
+  std::string s;
+  std::size_t const len = c.size() <= from ? 0 : static_cast<std::size_t>(static_cast<u64>(c[from]) % (maxlen + 1)); // frames are 4 words: the length is a word of its own
+  for (std::size_t i = from + 1; i < c.size() && s.size() < len; ++i)
+  {
+    u64 const x = static_cast<u64>(c[i]);
+    if (x % 37 == 36) s.push_back('\0');
+    else s.push_back(mangle_alphabet[x % sizeof mangle_alphabet]);
+  }
+  return s;
+}
+std::string const env_names[] = {"VERIF_C01_SET", "VERIF_C01_EMPTY", "VERIF_C01_UNSET", "", "=", "VERIF_C01_SET=", "VERIF_C01_SE", "VERIF_C01_SETT", std::string("VERIF_C01_SET\0tail", 18), std::string("VERIF_C01_EMPTY\0", 16)};
+void names_one(Ints const &c)
+{
+  Choices ch(c);
+  std::size_t const mode = ch.index(4);
+  std::size_t const pick = ch.index(sizeof env_names / sizeof env_names[0]);
+  std::string const raw = decode_name(c, 2, 24);
+  count(raw.empty() || raw.find('\0') != std::string::npos || mode == 3);
+  ::setenv("VERIF_C01_SET", "some value", 1);
+  ::setenv("VERIF_C01_EMPTY", "", 1);
+  ::unsetenv("VERIF_C01_UNSET");
+  if (mode <= 1)
+  {
+    // Reading: type_name takes a C string (the result of type_info::name()); the generated bytes up to
+    // the first NUL are passed over an exact-size heap copy. "Returns a demangled type name if
+    // possible": the reference is abi::__cxa_demangle, the input itself where that reports failure.
+    std::string const name = raw.substr(0, raw.find('\0'));
+    std::string const full = mode == 0 ? "_Z" + name : name;
+    std::unique_ptr<char[]> exact(new char[full.size() + 1]);
+    std::copy(full.begin(), full.end(), exact.get());
+    exact[full.size()] = '\0';
+    total("type_name", [&] {
+      std::string const r = fcppt::type_name(exact.get());
+      int status = 0;
+      char *const d = abi::__cxa_demangle(exact.get(), nullptr, nullptr, &status);
+      std::string const want = (status == 0 && d != nullptr) ? std::string(d) : full;
+      std::free(d);
+      if (r != want) fail("type_name|value", "type_name(" + show_string(full) + ") = " + show_string(r) + ", expected " + show_string(want));
+    });
+  }
+  else if (mode == 2)
+  {
+    total("type_name_from_info", [&] {
+      struct local_type {};
+      if (fcppt::type_name_from_info(typeid(int)) != "int" || fcppt::type_name_from_index(std::type_index(typeid(unsigned long))) != "unsigned long" || fcppt::type_name_from_info(typeid(std::vector<int>)).find("vector<int") == std::string::npos || fcppt::type_name_from_info(typeid(local_type)).find("local_type") == std::string::npos || fcppt::type_name_from_index(typeid(da)).find("da") == std::string::npos)
+        fail("type_name_from_info|value", "a well known type has an unexpected name: " + fcppt::type_name_from_info(typeid(std::vector<int>)));
+      base_l const &poly = dab();
+      if (fcppt::type_name_from_info(typeid(poly)).find("dab") == std::string::npos) fail("type_name_from_info|dynamic-type", "typeid of a polymorphic object");
+    });
+  }
+  else
+  {
+    // getenv: the reference is std::getenv. Reading: a name with an embedded NUL or '=' can not name a
+    // variable (POSIX), so nothing must be found for it.
+    std::string const name = ch.flag() ? env_names[pick] : (ch.flag() ? env_names[pick] + raw : raw);
+    if (name.find('\0') != std::string::npos) { skip(); return; } // embedded NUL: section getenv_embedded_nul
+    std::unique_ptr<char[]> exact(new char[name.size() == 0 ? 1 : name.size()]);
+    std::copy(name.begin(), name.end(), exact.get());
+    std::string_view const view(exact.get(), name.size());
+    total("getenv", [&] {
+      fcppt::optional_std_string const r = fcppt::getenv(view);
+      bool const nameable = name.find('\0') == std::string::npos && name.find('=') == std::string::npos && !name.empty();
+      char const *const ref = nameable ? std::getenv(name.c_str()) : nullptr;
+      if (r.has_value() != (ref != nullptr))
+        fail("getenv|presence|plain", "getenv(" + show_string(name) + ") is " + (r.has_value() ? "present: " + show_string(r.get_unsafe()) : std::string("absent")) + ", the environment has " + (ref != nullptr ? "a" : "no") + " variable of this name");
+      else if (ref != nullptr && r.get_unsafe() != ref) fail("getenv|value", "getenv(" + show_string(name) + ") = " + show_string(r.get_unsafe()));
+    });
+  }
+}
+Reg const r_names{"type_name_getenv", Kind::random, "the name is empty or contains a NUL byte, or the case reads the environment",
+                  [] { run_random(*g_cur.sec, {3000, 8}, {40000, 8}); },
+                  names_one,
+                  [](Ints const &c) { Choices ch(c); std::size_t const m = ch.index(4); std::size_t const pick = ch.index(sizeof env_names / sizeof env_names[0]); return std::string(m <= 1 ? "type_name" : (m == 2 ? "type_name_from_info/index on fixed types" : "getenv")) + " with generated name " + show_string(decode_name(c, 2, 24)) + (m == 0 ? " prefixed by _Z" : "") + (m == 3 ? " (possibly replaced by / appended to " + show_string(env_names[pick]) + ")" : ""); }};
+
+// getenv with a name that has an embedded NUL byte (kept in a section of its own so that a failure
+// here does not end the random section above). Reading: the parameter is a string_view, so any byte
+// sequence is a legal argument; no environment variable can have such a name, so the documented
+// result ("an optional value from the environment") is the empty optional.
+void getenv_nul_one(std::size_t pick, std::size_t tail)
+{
+  static std::string const bases[] = {"VERIF_C01_SET", "VERIF_C01_EMPTY", "VERIF_C01_UNSET", "", "PATH"};
+  static std::string const tails[] = {std::string("\0", 1), std::string("\0tail", 5), std::string("\0=x", 3)};
+  pick %= 5; tail %= 3;
+  count(true);
+  ::setenv("VERIF_C01_SET", "some value", 1);
+  ::setenv("VERIF_C01_EMPTY", "", 1);
+  ::unsetenv("VERIF_C01_UNSET");
+  std::string const name = bases[pick] + tails[tail];
+  std::unique_ptr<char[]> exact(new char[name.size()]);
+  std::copy(name.begin(), name.end(), exact.get());
+  total("getenv", [&] {
+    fcppt::optional_std_string const r = fcppt::getenv(std::string_view(exact.get(), name.size()));
+    if (r.has_value()) fail("getenv|presence|embedded-nul", "getenv(" + show_string(name) + ") is present: " + show_string(r.get_unsafe()) + ", but no environment variable can have a name with a NUL byte (the value of " + show_string(bases[pick]) + " was returned)");
+  });
+}
+Reg const r_getenv_nul{"getenv_embedded_nul", Kind::exhaustive, "every case: the name contains a NUL byte",
+                       [] { for (i64 p = 0; p < 5; ++p) for (i64 t = 0; t < 3; ++t) { cur2(p, t); getenv_nul_one(static_cast<std::size_t>(p), static_cast<std::size_t>(t)); } },
+                       [](Ints const &c) { getenv_nul_one(static_cast<std::size_t>(c.at(0)), static_cast<std::size_t>(c.at(1))); },
+                       [](Ints const &c) { static char const *const b[] = {"VERIF_C01_SET (set)", "VERIF_C01_EMPTY (set, empty)", "VERIF_C01_UNSET (unset)", "the empty name", "PATH"}; static char const *const t[] = {"\\0", "\\0tail", "\\0=x"}; return std::string("getenv of ") + b[static_cast<u64>(c.at(0)) % 5] + " followed by " + t[static_cast<u64>(c.at(1)) % 3]; }};
+
+// ---------------------------------------------------------------------------- error strings, error codes
+// Oracles: strerror(e) is "a wrapper around std::strerror": the same text; strerrno() the same for
+// errno; error_code_to_string(ec) the text of ec.message(); make_optional_error_code(ec): "If error has
+// an error value, then it is returned. Otherwise, the empty optional is returned."
+// Reading: an std::error_code "has an error value" iff its value() is non-zero (explicit operator bool).
+std::error_category const &category_of(std::size_t i)
+{
+  switch (i % 4)
+  {
+  case 0: return std::system_category();
+  case 1: return std::generic_category();
+  case 2: return std::iostream_category();
+  default: return std::future_category();
+  }
+}
+void errors_one(int value, std::size_t cat)
+{
+  cat %= 4;
+  count(value == 0 || on_lattice<int>(value));
+  total("error::strerror", [&] {
+    fcppt::string const r = fcppt::error::strerror(value);
+    std::string const want = std::strerror(value);
+    if (r != want) fail("error::strerror|value", "strerror(" + std::to_string(value) + ") = " + show_string(r) + ", std::strerror gives " + show_string(want));
+    errno = value;
+    fcppt::string const r2 = fcppt::error::strerrno();
+    if (r2 != want) fail("error::strerrno|value", "strerrno() with errno " + std::to_string(value) + " = " + show_string(r2));
+    errno = 0;
+  });
+  total("error_code_to_string", [&] {
+    std::error_code const ec(value, category_of(cat));
+    fcppt::string const r = fcppt::error_code_to_string(ec);
+    if (r != ec.message()) fail("error_code_to_string|value", "differs from message(): " + show_string(r));
+  });
+  total("make_optional_error_code", [&] {
+    std::error_code const ec(value, category_of(cat));
+    fcppt::optional_error_code const r = fcppt::make_optional_error_code(ec);
+    bool const has_error = static_cast<bool>(ec); // value() != 0
+    if (r.has_value() != has_error)
+      fail(std::string("make_optional_error_code|presence|") + (value != 0 ? "error-value" : (cat == 0 ? "default-code" : "zero-value-other-category")), std::string("error_code(") + std::to_string(value) + ", " + ec.category().name() + ") " + (has_error ? "has" : "has no") + " error value but the result is " + (r.has_value() ? "present" : "empty"));
+    else if (r.has_value() && r.get_unsafe() != ec) fail("make_optional_error_code|value", "a different code was returned");
+  });
+}
+Reg const r_errors{"error_strings_codes", Kind::exhaustive, "the error value is 0 or lies on the int boundary lattice",
+                   [] {
+                     std::vector<int> vals = lattice<int>();
+                     for (int e = 3; e <= 140; ++e) vals.push_back(e);
+                     for (int v : vals) for (i64 cat = 0; cat < 4; ++cat) { cur2(v, cat); errors_one(v, static_cast<std::size_t>(cat)); }
+                   },
+                   [](Ints const &c) { errors_one(static_cast<int>(c.at(0)), static_cast<std::size_t>(c.at(1))); },
+                   [](Ints const &c) { return "strerror / strerrno / error_code_to_string / make_optional_error_code with value " + std::to_string(static_cast<int>(c.at(0))) + " in " + category_of(static_cast<std::size_t>(c.at(1))).name() + " category"; }};
+
+// ---------------------------------------------------------------------------- time
+// gmtime/localtime are documented to throw std::runtime_error on failure (whitelisted). Where they
+// return, the reference is the proleptic Gregorian calendar computed with plain integer arithmetic
+// (TZ is set to UTC, so localtime must agree with gmtime). output_tm is documented to use the stream's
+// std::time_put facet with format 'c': in the classic locale that is strftime("%c").
+struct civil { i64 y; int mon, mday, hour, min, sec, wday, yday; };
+civil civil_from_time(i64 t)
+{
+  i64 days = t / 86400, rem = t % 86400;
+  if (rem < 0) { rem += 86400; --days; }
+  civil c{};
+  c.hour = static_cast<int>(rem / 3600); c.min = static_cast<int>(rem % 3600 / 60); c.sec = static_cast<int>(rem % 60);
+  i64 w = (days + 4) % 7; if (w < 0) w += 7;
+  c.wday = static_cast<int>(w);
+  // days since 1970-01-01 -> y/m/d by walking 400-year cycles then years and months
+  i64 const cycle = 146097;
+  i64 cycles = days / cycle; i64 d = days % cycle; if (d < 0) { d += cycle; --cycles; }
+  i64 y = 1970 + cycles * 400;
+  auto leap = [](i64 yy) { return (yy % 4 == 0 && yy % 100 != 0) || yy % 400 == 0; };
+  for (;;) { i64 const len = leap(y) ? 366 : 365; if (d < len) break; d -= len; ++y; }
+  c.y = y; c.yday = static_cast<int>(d);
+  int const ml[] = {31, leap(y) ? 29 : 28, 31, 30, 31, 30, 31, 31, 30, 31, 30, 31};
+  int m = 0; while (d >= ml[m]) { d -= ml[m]; ++m; }
+  c.mon = m; c.mday = static_cast<int>(d) + 1;
+  return c;
+}
+void time_one(i64 t)
+{
+  count(on_lattice<i64>(t));
+  ::setenv("TZ", "UTC0", 1);
+  ::tzset();
+  bool const moderate = t > -60000000000000LL && t < 60000000000000LL; // |year| < ~1.9 million: the reference loop is cheap and the year fits
+  for (int which = 0; which < 2; ++which)
+  {
+    char const *const fn = which == 0 ? "time::gmtime" : "time::localtime";
+    total<std::runtime_error>(fn, [&] {
+      std::tm const r = which == 0 ? fcppt::time::gmtime(static_cast<std::time_t>(t)) : fcppt::time::localtime(static_cast<std::time_t>(t));
+      touch(r.tm_sec + r.tm_min + r.tm_hour + r.tm_mday + r.tm_mon + r.tm_year + r.tm_wday + r.tm_yday);
+      if (moderate)
+      {
+        civil const c = civil_from_time(t);
+        if (r.tm_sec != c.sec || r.tm_min != c.min || r.tm_hour != c.hour || r.tm_mday != c.mday || r.tm_mon != c.mon || static_cast<i64>(r.tm_year) + 1900 != c.y || r.tm_wday != c.wday || r.tm_yday != c.yday)
+          fail(std::string(fn) + "|calendar", std::string(fn) + "(" + std::to_string(t) + ") = " + std::to_string(r.tm_year + 1900LL) + "-" + std::to_string(r.tm_mon + 1) + "-" + std::to_string(r.tm_mday) + " " + std::to_string(r.tm_hour) + ":" + std::to_string(r.tm_min) + ":" + std::to_string(r.tm_sec) + ", reference year " + std::to_string(c.y) + " month " + std::to_string(c.mon + 1) + " day " + std::to_string(c.mday));
+      }
+      // output_tm on the result
+      std::ostringstream os;
+      os.imbue(std::locale::classic());
+      fcppt::time::output_tm(os, r);
+      if (!os.good()) fail("time::output_tm|stream-state", "the stream is not good after output_tm for time " + std::to_string(t));
+      char buf[256];
+      std::size_t const len = std::strftime(buf, sizeof buf, "%c", &r);
+      if (len != 0 && os.str() != std::string(buf, len)) fail("time::output_tm|form", "printed " + show_string(os.str()) + ", strftime(%c) gives " + show_string(std::string(buf, len)));
+      std::wostringstream wos;
+      wos.imbue(std::locale::classic());
+      fcppt::time::output_tm(wos, r);
+      if (!wos.good() || (len != 0 && wos.str() != std::wstring(buf, buf + len))) fail("time::output_tm|wide", "wide output differs from the narrow one");
+      std::ostringstream bad;
+      bad.setstate(std::ios_base::badbit);
+      fcppt::time::output_tm(bad, r);
+      if (!bad.str().empty()) fail("time::output_tm|bad-stream", "wrote to a stream whose sentry fails");
+    });
+  }
+}
+Reg const r_time{"time_wrappers", Kind::random, "the time lies on the 64-bit boundary lattice",
+                 [] {
+                   for (i64 t : lattice<i64>()) { cur1(t); time_one(t); }
+                   SplitMix rng(opts().seed ^ 0x7171);
+                   std::size_t const n = opts().thorough() ? 30000 : 1500;
+                   for (std::size_t i = 0; i < n; ++i) { i64 const t = static_cast<i64>(rng.next()) >> (rng.next() % 48); cur1(t); time_one(t); }
+                   // std_time: between two readings of the C clock
+                   cur1(0);
+                   total<std::runtime_error>("time::std_time", [] {
+                     std::time_t const before = std::time(nullptr);
+                     std::time_t const got = fcppt::time::std_time();
+                     std::time_t const after = std::time(nullptr);
+                     if (got < before || got > after) fail("time::std_time|value", "not between two calls of std::time");
+                   });
+                 },
+                 [](Ints const &c) { time_one(c.at(0)); },
+                 [](Ints const &c) { return "gmtime / localtime (TZ=UTC) / output_tm for time_t " + std::to_string(c.at(0)); }};
+
+// ---------------------------------------------------------------------------- exception, version_string, format, signal container, scoped_state_machine
+struct sm_state;
+struct sm_machine : boost::statechart::state_machine<sm_machine, sm_state> {};
+struct sm_state : boost::statechart::simple_state<sm_state, sm_machine> {};
+
+void various_one(std::size_t n, u64 mask, int k)
+{
+  n %= 6;
+  count(n <= 1 || mask == 0);
+  total("exception", [&] {
+    fcppt::string const msg(n, FCPPT_TEXT('m'));
+    fcppt::exception const e{fcppt::string(msg)};
+    fcppt::exception cp(e);
+    fcppt::exception mv(std::move(cp));
+    fcppt::exception as{fcppt::string(FCPPT_TEXT("other"))};
+    as = e;
+    fcppt::exception as2{fcppt::string()};
+    as2 = std::move(as);
+    if (e.string() != msg || mv.string() != msg || as2.string() != msg) fail("exception|string", "the message is not preserved by copy/move");
+    if (e.what() == nullptr || std::strlen(e.what()) == 0) fail("exception|what", "what() returns nothing printable");
+    try { throw fcppt::exception(fcppt::string(msg)); }
+    catch (std::exception const &caught) { touch(std::string(caught.what())); }
+  });
+  total("version_string", [&] {
+    std::string const want = std::to_string(FCPPT_VERSION / 1000000UL) + "." + std::to_string(FCPPT_VERSION / 1000UL % 1000UL) + "." + std::to_string(FCPPT_VERSION % 1000UL);
+    if (fcppt::version_string() != want) fail("version_string|value", "version_string() = " + fcppt::version_string() + ", FCPPT_VERSION says " + want);
+  });
+  total("format", [&] {
+    fcppt::string const r = (fcppt::format(FCPPT_TEXT("%1%|%2%|%1%")) % k % fcppt::string(n, FCPPT_TEXT('f'))).str();
+    if (r != std::to_string(k) + "|" + std::string(n, 'f') + "|" + std::to_string(k)) fail("format|value", "formatted " + r);
+  });
+  total("signal::auto_connection_container", [&] {
+    using signal_type = fcppt::signal::object<void()>;
+    signal_type sig{};
+    int calls = 0;
+    fcppt::signal::auto_connection_container cons;
+    for (std::size_t i = 0; i < n; ++i) cons.push_back(sig.connect(signal_type::function{[&calls] { ++calls; }}));
+    sig();
+    if (calls != static_cast<int>(n)) fail("signal::auto_connection_container|connected", "not every stored connection is live");
+    // drop the connections selected by the mask
+    fcppt::signal::auto_connection_container kept;
+    std::size_t live = 0;
+    for (std::size_t i = 0; i < n; ++i) if ((mask >> i) & 1U) { kept.push_back(std::move(cons[i])); ++live; }
+    cons.clear();
+    calls = 0;
+    sig();
+    if (calls != static_cast<int>(live)) fail("signal::auto_connection_container|after-clear", std::to_string(calls) + " calls, " + std::to_string(live) + " connections kept");
+    kept.clear();
+    calls = 0;
+    sig();
+    if (calls != 0 || !sig.empty()) fail("signal::auto_connection_container|empty", "a destroyed connection is still called");
+  });
+  total("scoped_state_machine", [&] {
+    sm_machine m;
+    if (!m.terminated()) fail("scoped_state_machine|initial", "fresh machine not terminated");
+    {
+      fcppt::scoped_state_machine<sm_machine> const scoped(m);
+      if (m.terminated()) fail("scoped_state_machine|initiate", "the constructor did not initiate the machine");
+    }
+    if (!m.terminated()) fail("scoped_state_machine|terminate", "the destructor did not terminate the machine");
+  });
+}
+Reg const r_various{"exception_version_format_signal_statemachine", Kind::exhaustive, "zero or one connection / empty message, or every connection dropped",
+                    [] { for (i64 n = 0; n < 6; ++n) for (i64 m = 0; m < (1 << n); ++m) { cur3(n, m, n - 2); various_one(static_cast<std::size_t>(n), static_cast<u64>(m), static_cast<int>(n - 2)); } },
+                    [](Ints const &c) { various_one(static_cast<std::size_t>(c.at(0)), static_cast<u64>(c.at(1)), static_cast<int>(c.at(2) % 100000)); },
+                    [](Ints const &c) { return "exception (message length n), version_string, format, auto_connection_container (n connections, keep mask), scoped_state_machine with n = " + std::to_string(static_cast<u64>(c.at(0)) % 6) + ", mask " + std::to_string(c.at(1)) + ", int " + std::to_string(c.at(2) % 100000); }};
 }
